@@ -108,7 +108,29 @@ def lag_of(method, br, i, j):
 def _hank(Y, Yref, br, method):
     from pyoma2.functions import ssi
 
-    return ssi.build_hank(Y, Yref, br, method)[0]
+    # a copy: neither a reference value nor an observed matrix may live in memory that a later library call could write to
+    return np.array(ssi.build_hank(Y, Yref, br, method)[0], copy=True)
+
+
+def later_call_keeps_earlier_matrix(t, case, Y, Yref, br, method, label):
+    """The matrix RETURNED by an earlier call (as the caller holds it - no copy) must still be that matrix after a later call on other
+    records of the same shape and type: two results alive at once (two algorithm objects, results collected and compared afterwards)."""
+    from pyoma2.functions import ssi
+
+    first = ssi.build_hank(Y, Yref, br, method)[0]
+    snap = np.array(first, copy=True)
+    Y2 = np.ascontiguousarray(Y[:, ::-1])                       # the records played backwards: same shape, same type, other lags
+    second = ssi.build_hank(Y2, Y2[:Yref.shape[0]] if Yref.shape[0] < Y.shape[0] else Y2, br, method)[0]
+    t.evaluations += 2
+    t.transitions += 1
+    if not (np.array_equal(np.asarray(first), snap) and not np.shares_memory(np.asarray(first), np.asarray(second))):
+        t.violation(f"{label}:earlier-matrix-changed-by-a-later-call:{method}",
+                    f"build_hank({method!r}) on records of shape {Y.shape}: the matrix returned by the first call "
+                    + ("shares memory with the matrix returned by a later call on other records of the same shape"
+                       if np.shares_memory(np.asarray(first), np.asarray(second)) else "changed") +
+                    f"; max change {float(np.max(np.abs(np.asarray(first) - snap))):.3g}", case)
+    else:
+        t.outcomes[f"{label}:earlier-matrix-kept-after-later-call:{method}"] += 1
 
 
 # ------------------------------------------------------------------------------------------------
@@ -512,6 +534,11 @@ def dat_config(item):
         t.violation(pre + "dat:normalisation", f"dat l={l} r={r} br={br} Ndat={Nd}: Gram scale {c!r} (x Ndat = {c * Nd:.4g}) is not that of 1/sqrt(N)-scaled data matrices", case)
     else:
         t.outcomes[pre + "dat:gram-equal"] += 1
+    if not pre:
+        try:
+            later_call_keeps_earlier_matrix(t, case, Yraw, Yrraw, br, "dat", "dat")
+        except Exception as e:
+            t.violation(f"raises:{type(e).__name__}:build_hank:dat:second-call", f"a second build_hank call raised {type(e).__name__}: {e}", case)
         if idx % (13 if pre else 17) == 0:
             t.sample({"part": pre + "dat", "l": l, "r": r, "br": br, "Ndat": Nd, "variant": variant, "gram_residual": res, "scale_x_Ndat": c * Nd})
     return t
@@ -658,7 +685,7 @@ def cond_config(item):
                     alg = SSIdat(name="a", br=br, ordmax=2, method="dat", ref_ind=list(ref_ind))
                     ss.add_algorithms(alg)
                     ss.run_by_name("a")
-                    H = np.asarray(alg.result.H)
+                    H = np.array(alg.result.H, copy=True)
             except Exception as e:
                 t.evaluations += 1
                 t.violation(f"raises:{type(e).__name__}:cond:{route}",
@@ -721,7 +748,7 @@ def run_config(item):
         alg = (SSIdat if method == "dat" else SSIcov)(**kw)
         ss.add_algorithms(alg)
         ss.run_by_name("a")
-        H = np.asarray(alg.result.H)
+        H = np.array(alg.result.H, copy=True)
     except Exception as e:
         t.evaluations += 1
         t.violation(f"raises:{type(e).__name__}:run:{method}", f"{method} run raised {type(e).__name__}: {e} for l={l} ref_ind={ref} br={br} Ndat={Nd}", case)
@@ -754,7 +781,7 @@ def run_config(item):
         ss2 = SingleSetup(data2.copy(), fs=10.0)
         ss2.add_algorithms(alg)
         ss2.run_by_name("a")
-        H2 = np.asarray(alg.result.H)
+        H2 = np.array(alg.result.H, copy=True)
     except Exception as e:
         t.violation(f"raises:{type(e).__name__}:rerun:{method}", f"{method} second run of the same algorithm object on other records raised {type(e).__name__}: {e}", case)
         return t
@@ -868,7 +895,7 @@ def share_config(item):
             objs = [first, second]
             bound = [datas[0], datas[1]]
             holders = [rp] if rp2 is rp else [rp, rp2]
-        Hs = [np.asarray(o.result.H) for o in objs]
+        Hs = [np.array(o.result.H, copy=True) for o in objs]     # copies taken at the moment of reading, after BOTH runs
     except Exception as e:
         t.evaluations += 1
         t.violation(f"raises:{type(e).__name__}:share:{form}", f"raised {type(e).__name__}: {e} with {what}", case)
@@ -1145,6 +1172,7 @@ def explore(ctx):
                 "run:H-equal:cov_mm:permuted-subset", "run:H-equal:cov_R:permuted-subset", "run:H-equal:dat:permuted-subset",
                 "run:H-equal:dat:all-channels", "rerun:H-equal:cov_mm", "rerun:H-equal:cov_R", "rerun:H-equal:dat", "run:records-as-int16", "run:records-as-int32")
     # the long-record region was really explored: every method judged equal at every side of 2**16 and 2**17, each record type
+    ctx.require("dat:earlier-matrix-kept-after-later-call:dat")
     ctx.require("long:dat:gram-equal", "run:long-record:H-equal:cov_mm", "run:long-record:H-equal:cov_R", "run:long-record:H-equal:dat",
                 *[f"long:records:{m}:products-{side}-2**{k}" for m in LONG_METHODS for k in (12, 16, 17) for side in ("below", "at", "above")],
                 *[f"long:records:{m}:products-other" for m in LONG_METHODS],
